@@ -133,6 +133,7 @@ func profileFor(prop, tier string) profile {
 		base.maxConns, base.maxReqs = pick(4, 8), pick(6, 24)
 		base.stopPct, base.passiveEnd = 100, true
 		base.stop2Pct = 8 // Stop while Run is still starting up: Run must return all the same
+		base.wtimeoutPct = 10
 		base.stormPct = 2
 		base.endings = []string{"", "", "", "midframe-open", "close", "unbind", "halfclose"}
 		base.windowPct, base.pausePct, base.stallPct = 35, 35, 25
@@ -213,6 +214,12 @@ func drawMux(ch *Chooser, tier string) []RouteSpec {
 		r.Label = fmt.Sprintf("r%d", i)
 		rs = append(rs, r)
 	}
+	// the last one or two routes may be registered later, on the live mux
+	if len(rs) > 0 && ch.Choose(4) == 3 {
+		for i, k := len(rs)-1, 1+ch.Choose(2); i >= 0 && k > 0; i, k = i-1, k-1 {
+			rs[i].Late = true
+		}
+	}
 	// default / unbind routes, possibly registered twice (the later one wins)
 	for i, nd := 0, ch.Choose(3); i < nd; i++ {
 		at := ch.Choose(len(rs) + 1)
@@ -280,7 +287,7 @@ func DrawCore(prop, tier string, ch *Chooser, lean bool, s *Sim) *Core {
 		cfg.WriteTimeout = []time.Duration{50 * time.Millisecond, time.Second, 30 * time.Second}[ch.Choose(3)]
 	}
 	if cfg.WriteTimeout == 0 && ch.Chance(p.wtimeoutPct) {
-		cfg.WriteTimeout = []time.Duration{50 * time.Millisecond, time.Second, 30 * time.Second}[ch.Choose(3)]
+		cfg.WriteTimeout = []time.Duration{50 * time.Millisecond, time.Second, 30 * time.Second, 5 * time.Minute}[ch.Choose(4)]
 	}
 	if p.randomMux {
 		cfg.Routes = drawMux(ch, tier)
@@ -354,6 +361,7 @@ func DrawCore(prop, tier string, ch *Chooser, lean bool, s *Sim) *Core {
 	}
 	if !cfg.Malformed && ch.Chance(p.busyPortPct) {
 		cfg.BusyPort = true
+		cfg.BusyReuse = ch.Choose(2) == 1
 	}
 	nConns := ch.Int(1, p.maxConns)
 	if prop == "C11" || prop == "C12" {
